@@ -346,7 +346,8 @@ int main(int argc, char **argv) {
         c->bs_convert = bits & 1; c->lower = (bits >> 1) & 1; c->nul_enc_term = (bits >> 2) & 1; c->nul_raw_term = (bits >> 3) & 1;
         c->compress = (bits >> 4) & 1; c->sep_decode = (bits >> 5) & 1; c->u_decode = (bits >> 6) & 1; c->bestfit = (bits >> 7) & 1;
         c->cfg = htp_config_create();
-        enum htp_decoder_ctx_t x = HTP_DECODER_URL_PATH;
+        /* a third of the configurations are set through HTP_DECODER_DEFAULTS ("all contexts", which includes the path context) */
+        enum htp_decoder_ctx_t x = (ci % 3 == 0) ? HTP_DECODER_DEFAULTS : HTP_DECODER_URL_PATH;
         htp_config_set_backslash_convert_slashes(c->cfg, x, c->bs_convert);
         htp_config_set_convert_lowercase(c->cfg, x, c->lower);
         htp_config_set_nul_encoded_terminates(c->cfg, x, c->nul_enc_term);
@@ -359,6 +360,7 @@ int main(int argc, char **argv) {
         /* the best-fit table and its replacement byte are configuration too (the model reads both from the configuration the
          * transaction uses): a fifth of the lattice points replace with '*', a seventh use an application-supplied table */
         if (ci % 5 == 1) htp_config_set_bestfit_replacement_byte(c->cfg, x, '*');
+        x = HTP_DECODER_URL_PATH;
         if (ci % 7 == 2) {
             static unsigned char custom_map[] = { 0xff, 0x0e, '!', 0xff, 0x0f, '|', 0x22, 0x15, '#', 0x01, 0x41, 'z', 0xff, 0x21, 'Q', 0xff, 0x3c, '/', 0x00, 0x00, 0x00 };
             htp_config_set_bestfit_map(c->cfg, x, custom_map);
